@@ -12,6 +12,7 @@ import (
 
 	"github.com/KevoDB/kevo/pkg/compaction"
 	"github.com/KevoDB/kevo/pkg/config"
+	"github.com/KevoDB/kevo/pkg/engine"
 	"github.com/KevoDB/kevo/pkg/sstable"
 	"verif/mc/fw"
 )
@@ -400,5 +401,102 @@ func init() {
 	})
 }
 
-func c12EngUnits(tier string) []string               { return nil }
-func c12EngUnit(unit string, env *fw.Env) *fw.Result { return fw.NewResult() }
+func c12Alphabet() []EngOp {
+	return []EngOp{
+		{Kind: "putF", Key: "a"}, {Kind: "delF", Key: "a"}, {Kind: "putF", Key: "b"}, {Kind: "delF", Key: "b"},
+		{Kind: "compact"}, {Kind: "crange", Lo: "a", Hi: "a"}, {Kind: "reopen"}, {Kind: "clock"},
+	}
+}
+
+var c12EngCfg = EngCfg{"l0x2", 32 << 20, 2, config.SyncImmediate}
+
+// engine-level oracle: reads = model now, after reopen, and after reopen with the flushed logs retired
+func c12EngOracle(r *EngRun, prog []EngOp) string {
+	keys := []string{"a", "b", "c"}
+	check := func(phase string) string {
+		if p := r.CheckGets(keys); p != "" {
+			return phase + "-" + firstLine(p) + "\n" + phase + ": " + p
+		}
+		if p := r.CheckScan(); p != "" {
+			return phase + "-" + firstLine(p) + "\n" + phase + ": " + p
+		}
+		return ""
+	}
+	if p := check("live"); p != "" {
+		return p
+	}
+	if err := r.Apply(EngOp{Kind: "reopen"}); err != nil {
+		return "reopen-failed\n" + err.Error()
+	}
+	if p := check("reopened"); p != "" {
+		return p
+	}
+	// every write of these programs was flushed: the log files hold nothing the tables lack
+	r.Eng.Close()
+	retireLogs(r.Dir)
+	e, err := engine.NewEngineFacade(r.Dir)
+	if err != nil {
+		return "reopen-failed\nafter log retirement: " + err.Error()
+	}
+	r.Eng = e
+	if p := check("logs-retired"); p != "" {
+		return p
+	}
+	// and compaction of what is there now still preserves it
+	r.Apply(EngOp{Kind: "compact"})
+	if p := check("logs-retired+compact"); p != "" {
+		return p
+	}
+	return ""
+}
+
+func c12EngUnits(tier string) []string {
+	var us []string
+	depth := 4
+	if tier == "thorough" {
+		depth = 6
+	}
+	for i := 0; i < 4; i++ {
+		for j := range c12Alphabet() {
+			us = append(us, fmt.Sprintf("eng/%d/%d/%d", depth, i, j))
+		}
+	}
+	for i := 0; i < 6; i++ {
+		us = append(us, fmt.Sprintf("crash/%d/6", i))
+	}
+	return us
+}
+
+func c12EngUnit(unit string, env *fw.Env) *fw.Result {
+	res := fw.NewResult()
+	alpha := c12Alphabet()
+	if strings.HasPrefix(unit, "eng/") {
+		var depth, i, j int
+		fmt.Sscanf(unit, "eng/%d/%d/%d", &depth, &i, &j)
+		sp := &seqxSpec{Prop: "C12", Cfg: c12EngCfg, Alphabet: alpha, Depth: depth, Oracle: c12EngOracle}
+		seqxRun(sp, []EngOp{alpha[i], alpha[j]}, env, unit, res)
+		return res
+	}
+	// crash points inside compaction
+	var shard, nsh int
+	fmt.Sscanf(unit, "crash/%d/%d", &shard, &nsh)
+	w := alpha[:4]
+	sp := &c02Spec{Prop: "C12", Cfg: c12EngCfg, Keys: []string{"a", "b"}, Torn: true}
+	n := 0
+	for _, x := range w {
+		for _, y := range w {
+			for _, z := range append(append([]EngOp{}, w...), EngOp{Kind: "compact"}) {
+				for _, last := range []EngOp{{Kind: "compact"}, {Kind: "crange", Lo: "a", Hi: "b"}} {
+					n++
+					if n%nsh != shard {
+						continue
+					}
+					prog := []EngOp{x, y, z, last}
+					sp.Depth = len(prog)
+					c02Explore(sp, prog, env, unit, res)
+				}
+			}
+		}
+	}
+	return res
+}
